@@ -180,6 +180,24 @@ def r06_4(ctx):
                     ctx.require(got == want, f"command:exception:{want}:seq={seq0}",
                                 f"v{v0}, sequence number {seq0}: {aw[-1].what} ends with {want} but the command ends with {p.terminal} {p.value!r}; callers "
                                 f"(watchdog, send_packet) act on {want}", func=f_cmd(ctx), trace=p.trace(30), props=("C06", "C19", "C10"))
+    # the reply is dispatched (its entry popped by the receive path) in the very loop turn in which the time limit fires: the
+    # command has already lost the race and ends with TimeoutError - a clean-up that assumes the entry is still there must not
+    # turn that into another exception
+    def popped_then_timeout(px_, t, a, k, fr):
+        me_ = fr.self_obj
+        aw_ = me_.fields.get("_awaiting") if isinstance(me_, Obj) else None
+        if isinstance(aw_, dict):
+            aw_.clear()
+        return Outcomes(RAISE("TimeoutError"))
+
+    for seq0 in (7, 255):
+        _, _, ps = explore_command(ctx, 8, seq0, "nop", Outcomes(OK(None)), popped_then_timeout)
+        ctx.paths += len(ps)
+        for p in ps:
+            got = getattr(p.value, "cls_name", None) if p.terminal == "raise" else None
+            ctx.require(got == "TimeoutError", f"command:exception:reply-popped-at-timeout:seq={seq0}",
+                        f"sequence number {seq0}: the reply's entry is popped by the receive path in the turn in which the time limit fires; the command ends with "
+                        f"{p.terminal} {p.value!r}, callers act on TimeoutError", func=f_cmd(ctx), trace=p.trace(30), props=("C06", "C19", "C10"))
     f, px, paths = explore_command(ctx, 8, 7, "nop", send, wait, cancel=True)
     ctx.paths += len(paths)
     ctx.anchor(len(paths) >= 6, "command() outcome paths")
